@@ -12,7 +12,10 @@
      inset_size extent s e ms me min max pb = max (min' (max (extent - s - e - ms - me) 0) max) (max min pb)   (min wins; the
          child's own padding+border pb is a floor -- that floor is NOT in the property text, see notes/C11.md)
 
-   Premises common to all: finite inputs, no aspect ratio, margins of the axis non-auto (except the auto-margin theorem). *)
+   Premises common to all: finite inputs, no aspect ratio, margins of the axis non-auto (except the auto-margin theorem).
+   Scope (audit, wave 5c): `i` is the ALREADY RESOLVED style (AbsIn); nothing here is about the resolve stage (block_resolve /
+   flex_resolve / grid_resolve of Gen/AbsPosGen.v, where percentages are resolved -- the known finding block-abspos-percent-border
+   lives there); `ai_aspect_ratio i = None` is a premise of every theorem and is not granted by the property's quantifier. *)
 From Coq Require Import ZArith NArith QArith Bool List.
 From TV Require Import Num.Num Num.QNum Gen.AbsPosEnums Model.AbsPosBase Gen.AbsPosGen Model.AbsPos.
 From TV Require Import Proofs.AbsPosProofs Proofs.AbsPosBlockProofs Proofs.AbsPosFlexProofs Proofs.AbsPosGridProofs.
@@ -261,6 +264,36 @@ Proof.
   - exact (proj1 (B _ _ _ _ eq_refl eq_refl eq_refl eq_refl eq_refl)).
 Qed.
 
+(* ================================================================================== the margin in the equations (audit, wave 5c)
+   The start / end equations above are written with the margin the kernel REPORTS (o_margin o); the premises bind the style
+   margins ml / mr but the conclusions do not mention them.  A kernel that reported margin 0 and placed the box at
+   padding-box + inset would satisfy start_eq -- while the property's "margin edge" is the STYLE margin.  For the block and
+   flex kernels the reported margin of a non-auto side IS the style margin (Leibniz), so there the equations are the property's.
+   For the grid kernel the reported margin is `style margin + baseline shim` with the shim 0 (grid_align_item_within_area):
+   equal as a number for finite margins, not proved here -- C11_start_grid / C11_end_grid remain relative to the reported margin;
+   the correspondence compares the reported margins with the implementation's bit for bit. *)
+Theorem C11_reported_margin_is_style_margin_block : forall (ct : @Container XQ) sp i measure,
+  let o := abs_block ct sp i measure in
+  (forall m, r_left (ai_margin i) = Some m -> r_left (o_margin o) = m) /\
+  (forall m, r_right (ai_margin i) = Some m -> r_right (o_margin o) = m) /\
+  (forall m, r_top (ai_margin i) = Some m -> r_top (o_margin o) = m) /\
+  (forall m, r_bottom (ai_margin i) = Some m -> r_bottom (o_margin o) = m).
+Proof.
+  intros ct sp i measure. cbv zeta. rewrite abs_block_unfold. unfold abs_block_place, block_place.
+  cbn [o_margin r_left r_right r_top r_bottom]. repeat split; intros m E; rewrite E; reflexivity.
+Qed.
+Theorem C11_reported_margin_is_style_margin_flex : forall (c : FlexConstants XQ) i measure,
+  let o := abs_flex c i measure in
+  (forall m, r_left (ai_margin i) = Some m -> r_left (o_margin o) = m) /\
+  (forall m, r_right (ai_margin i) = Some m -> r_right (o_margin o) = m) /\
+  (forall m, r_top (ai_margin i) = Some m -> r_top (o_margin o) = m) /\
+  (forall m, r_bottom (ai_margin i) = Some m -> r_bottom (o_margin o) = m).
+Proof.
+  intros c i measure. cbv zeta. rewrite abs_flex_unfold. unfold abs_flex_place, flex_place.
+  destruct (fc_is_row c); cbn [o_margin r_left r_right r_top r_bottom fst snd]; repeat split; intros m E; rewrite E; reflexivity.
+Qed.
+
+
 Print Assumptions C11_start_block.
 Print Assumptions C11_end_block.
 Print Assumptions C11_size_block.
@@ -272,3 +305,5 @@ Print Assumptions C11_start_grid.
 Print Assumptions C11_end_grid.
 Print Assumptions C11_end_grid_negative_area_refuted.
 Print Assumptions C11_size_grid.
+Print Assumptions C11_reported_margin_is_style_margin_block.
+Print Assumptions C11_reported_margin_is_style_margin_flex.
